@@ -31,13 +31,14 @@ type extDef struct {
 }
 
 type c18world struct {
-	all        *defs.All
-	currencies map[string]bool
-	countries  map[string]bool
-	exts       map[string]*extDef
-	tagsAll    []string
-	catsAll    []string
-	ratesAll   []string
+	all          *defs.All
+	currencies   map[string]bool
+	countries    map[string]bool
+	taxCountries map[string]bool
+	exts         map[string]*extDef
+	tagsAll      []string
+	catsAll      []string
+	ratesAll     []string
 }
 
 func loadEnum(file string) map[string]bool {
@@ -73,7 +74,8 @@ func getC18World() *c18world {
 		w := &c18world{all: getWorld().defs, exts: map[string]*extDef{}}
 		w.currencies = loadEnum("currency/code.json")
 		w.countries = loadEnum("l10n/iso-country-code.json")
-		for k := range loadEnum("l10n/tax-country-code.json") {
+		w.taxCountries = loadEnum("l10n/tax-country-code.json")
+		for k := range w.taxCountries {
 			w.countries[k] = true
 		}
 		addExt := func(list []defs.KeyDef) {
@@ -214,7 +216,14 @@ func (w *c18world) resolve(doc *jmut.Node) (kind, where, detail string) {
 				rk, rw, rd = "currency", p.Class(), "currency "+n.S+" is not a published code"
 			}
 		case (key == "country" || key == "origin") && n.K == jmut.Str:
-			if !w.countries[n.S] {
+			// the schemas publish two lists: tax countries (tax identities, tax combos,
+			// tax summaries) and ISO countries (addresses, identities, origins)
+			cls := p.Class()
+			if strings.HasSuffix(cls, "taxes[].country") || strings.HasSuffix(cls, "tax_id.country") || strings.HasSuffix(cls, "rates[].country") {
+				if !w.taxCountries[n.S] {
+					rk, rw, rd = "country", cls, "tax country "+n.S+" is not a published tax country code"
+				}
+			} else if !w.countries[n.S] {
 				rk, rw, rd = "country", p.Class(), "country "+n.S+" is not a published code"
 			}
 		case key == "ext" && n.K == jmut.Obj:
@@ -319,6 +328,15 @@ func (w *c18world) variants(doc *jmut.Node, rngPick func(n int) int, full bool) 
 	sort.Strings(curs)
 	sort.Strings(countries)
 	sort.Strings(extKeys)
+	// codes that only one of the two published country lists holds (GR/EL, XI, XU…):
+	// always tried at every country position
+	iso := loadEnum("l10n/iso-country-code.json")
+	var countryEdge []string
+	for _, cc := range countries {
+		if iso[cc] != w.taxCountries[cc] {
+			countryEdge = append(countryEdge, cc)
+		}
+	}
 	// root references
 	for _, r := range append(append([]string{}, regs...), "ZZ", "zz", "GR", "XX") {
 		d := doc.Clone()
@@ -457,7 +475,7 @@ func (w *c18world) variants(doc *jmut.Node, rngPick func(n int) int, full bool) 
 		case key == "currency" && n.K == jmut.Str:
 			rep("currency", append(sample(curs, 40), "ZZZ", "eur", "EURO", ""))
 		case key == "country" && n.K == jmut.Str:
-			rep("country", append(sample(countries, 40), "ZZ", "XX", "es", "ESP"))
+			rep("country", append(append(sample(countries, 40), countryEdge...), "ZZ", "XX", "es", "ESP"))
 		case key == "cat" && n.K == jmut.Str:
 			rep("category", append(append([]string{}, w.catsAll...), "ZZZ", "vat"))
 		case key == "rate" && n.K == jmut.Str:
